@@ -1,4 +1,4 @@
-import MJ.Model.Output
+import MJ.Model.OutputEmit
 /-! Line driver for C19.
 
 `prog<TAB>pid api clean ops [psyn]`
@@ -170,7 +170,7 @@ partial def toProg (items : List PSyn) (env : Env) (k : Env → Prog) : Prog :=
   | [] => k env
   | .text s :: rest => .seq (.emit (.str s)) (toProg rest env k)
   | .use v x :: rest => .seq (.emit (.str (x.apply (env.get v)))) (toProg rest env k)
-  | .fail :: _ => .fail 0
+  | .fail :: _ => .fail (.other 0)
   | .set v body :: rest =>
     .capture false (toProg body env fun _ => .skip) fun val => toProg rest ((v, val.getD []) :: env) k
   | .filt x body :: rest =>
@@ -198,8 +198,13 @@ def kindCode : IoKind → Nat
   | .brokenPipe => 1 | .other => 2 | .wouldBlock => 3
   | .interrupted => 4 | .writeZero => 5 | .timedOut => 6
 
+/-- identity of the stand-in error of a panicking sink (`P`): unwinding stops the evaluation at
+    that call exactly like an error does; the driver reports the result as `panic` -/
+def panicId : Nat := 999983
+
 def parseBeh (t : String) : Option Beh :=
   if t = "A" then some .all
+  else if t = "P" then some (.err ⟨.other, panicId⟩)
   else if t = "H" then some .half
   else if t.startsWith "S" then (t.drop 1).toString.toNat?.map Beh.accept
   else if t.startsWith "E" then
@@ -220,7 +225,9 @@ def parseTok (t : String) : Option (List Beh) :=
     | _, _ => none
   | _ => none
 
-def parseScript (s : String) : Option (List Beh) :=
+def parseScript (s0 : String) : Option (List Beh) :=
+  -- a leading `F` (the sink's `flush` fails) is no behaviour of `write`: the model has no flush
+  let s := if s0 = "F" then "-" else if s0.startsWith "F," then (s0.drop 2).toString else s0
   if s = "-" then some [] else
   (s.splitOn ",").foldr (fun t acc => match parseTok t, acc with
     | some xs, some ys => some (xs ++ ys)
@@ -243,7 +250,7 @@ def digest (cs : List Call) : Nat :=
 def showRes : Chk (Except Err Unit) → String
   | .panic => "panic"
   | .ok (.ok ()) => "ok"
-  | .ok (.error (.writeFailure (some e))) => s!"wf:{kindName e.kind}:{e.id}"
+  | .ok (.error (.writeFailure (some e))) => if e.id = panicId then "panic" else s!"wf:{kindName e.kind}:{e.id}"
   | .ok (.error (.writeFailure none)) => "wfnone"
   | .ok (.error _) => "other"
 
@@ -254,6 +261,65 @@ def countExec : List Op → St WriteWrapper → Nat → Nat
     match step op st with
     | (st', none) => countExec ops st' (n + 1)
     | (_, some _) => n + 1
+
+/-! ## the `Emit` layer: pieces the model predicts for one emitted value -/
+
+def parsePieces (s : String) : Pieces :=
+  if s = "-" then [] else
+  (s.splitOn ",").map fun t =>
+    let b := unhex (t.drop 2).toString
+    if t.startsWith "c" then Chunk.chr b else Chunk.str b
+
+def showPieces (ops0 : List Op) : String :=
+  -- only the writes; a trailing failure of the emit is visible in the run's result
+  let ops := ops0.filter fun o => match o with | .write _ => true | _ => false
+  if ops = [] then "-" else
+  ",".intercalate (ops.map fun o => match o with
+    | .write (.str b) => "w:" ++ String.join (b.map fun x => (String.singleton (Nat.digitChar (x.toNat / 16))) ++ String.singleton (Nat.digitChar (x.toNat % 16)))
+    | .write (.chr b) => "c:" ++ String.join (b.map fun x => (String.singleton (Nat.digitChar (x.toNat / 16))) ++ String.singleton (Nat.digitChar (x.toNat % 16)))
+    | .panic => "PANIC"
+    | .fail _ => "FAIL"
+    | _ => "?")
+
+def optHex (s : String) : Option Bytes := if s.startsWith "=" then some (unhex (s.drop 1).toString) else none
+
+/-- undo `HtmlEscape` (every `&` of the output starts a replacement of the table) -/
+partial def unescapeHtml : Bytes → Bytes
+  | [] => []
+  | b :: rest =>
+    match MJ.Gen.htmlEscapeTable.find? (fun r => r.2.toUTF8.toList.isPrefixOf (b :: rest)) with
+    | some r => UInt8.ofNat r.1.toNat :: unescapeHtml ((b :: rest).drop r.2.toUTF8.toList.length)
+    | none => b :: unescapeHtml rest
+
+/-- `key` = `id ae repr d|c text value`; answer = `det=<1|0> <pieces>`: the pieces the model's
+    `emitOps` yields; `det=0` when they are copied from the engine's (code outside minijinja's
+    source decides them) -/
+def emitAnswer (key pieces : String) : String :=
+  match key.splitOn " " with
+  | [_id, ae, repr, fmt, text, value] =>
+    let real := parsePieces pieces
+    let realBytes := (real.map Chunk.bytes).flatten
+    let text := optHex text
+    let value := optHex value
+    let aeM : AE := if ae = "html" then .html else if ae = "json" then .json else if ae = "none" then .none else .custom
+    if fmt = "c" then s!"det=0 {showPieces (compile [.emitCustom real false])}" else
+    let isNat := (repr = "U64" ∨ repr = "I64") ∧ (text.getD []).all (fun c => 48 ≤ c.toNat ∧ c.toNat ≤ 57)
+    let (v, det) : Val × Bool :=
+      if repr = "SafeString" then (.safe (value.getD []), true)
+      else if repr = "String" ∨ repr = "SmallStr" then (.str (value.getD []), true)
+      else if repr = "Bool" then (.bool (text = some "True".toUTF8.toList), true)
+      else if isNat then
+        let n := ((String.fromUTF8! ⟨(text.getD []).toArray⟩).toNat?).getD 0
+        (.nat n (text.getD []) real, aeM = .html ∧ n < MJ.Gen.c19SmallIntLimit)
+      else if repr = "Object" then
+        -- the text `to_string()` collects is not logged for objects: recover it from the output
+        (.other real false (if aeM = .html then unescapeHtml realBytes else realBytes), aeM = .html)
+      else if repr = "Bytes" then (.other real false (text.getD []), aeM = .html)
+      else (.display real, false)
+    let det := det ∨ aeM = .json ∨ aeM = .custom
+    let ops := emitOps aeM v (if aeM = .json then some realBytes else none)
+    s!"det={if det then 1 else 0} {showPieces ops}"
+  | _ => "bad-emit"
 
 structure Cur where
   ops : List Op := []
@@ -290,7 +356,8 @@ partial def loop (h : IO.FS.Stream) (out : IO.FS.Stream) (cur : Cur) : IO Unit :
       match parseOps opsS with
       | some aops =>
         let real := aops.map (·.op)
-        let ops := real ++ (if clean = "ok" then [] else [Op.fail 0])
+        let ops := real ++ (if clean = "ok" then [] else if clean = "wfnone" then [Op.fail Err.fromFmt]
+          else if clean = "panic" then [Op.panic] else [Op.fail (.other 0)])
         let o := renderString ops
         let route := checkRoutes aops ⟨[], []⟩ 0 0 0
         let prog := match more with
@@ -314,6 +381,9 @@ partial def loop (h : IO.FS.Stream) (out : IO.FS.Stream) (cur : Cur) : IO Unit :
       | some sc => out.putStrLn s!"case\t{key}\t{answer cur sc}"
       | none => out.putStrLn s!"case\t{key}\tbad-script"
     | _ => out.putStrLn s!"case\t{key}\tbad-case"
+    loop h out cur
+  | "emit" :: key :: pieces :: _ =>
+    out.putStrLn s!"emit\t{(key.splitOn " ").head!}\t{emitAnswer key pieces}"
     loop h out cur
   | tag :: key :: _ =>
     out.putStrLn s!"{tag}\t{key.take 60}\t-"
